@@ -33,7 +33,7 @@ ASSUMPTIONS = [
 
 
 def make_graph_server(graph: dict[int, list[int]], silent: list[list[int]], nrc_mode: str, log: list[tuple[int, bytes]], reset_answer: str = "positive",
-                      tp_unsupported: frozenset[int] = frozenset()) -> Any:
+                      tp_unsupported: frozenset[int] = frozenset(), busy_once: bool = False) -> Any:
     from gallia.services.uds.core import service
     from gallia.services.uds.core.constants import UDSErrorCodes, UDSIsoServices
     from gallia.services.uds.server import UDSServer
@@ -41,6 +41,7 @@ def make_graph_server(graph: dict[int, list[int]], silent: list[list[int]], nrc_
     edges = {int(k): set(v) for k, v in graph.items()}
     silent_set = {(a, b) for a, b in silent}
     all_targets = set().union(*edges.values()) if edges else set()
+    was_busy: set[tuple[int, int]] = set()
 
     class GraphServer(UDSServer):
         @property
@@ -60,6 +61,10 @@ def make_graph_server(graph: dict[int, list[int]], silent: list[list[int]], nrc_
                 if tgt in edges.get(cur, set()):
                     if (cur, tgt) in silent_set:
                         return None
+                    if busy_once and (cur, tgt) not in was_busy and tgt != 1:
+                        # still finishing the previous session change: busyRepeatRequest once, the repetition is accepted
+                        was_busy.add((cur, tgt))
+                        return service.NegativeResponse(0x10, UDSErrorCodes.busyRepeatRequest)
                     self.state.reset()
                     self.state.session = tgt
                     return None if pdu[1] & 0x80 else service.DiagnosticSessionControlResponse(tgt)
@@ -163,6 +168,8 @@ def graph_case(draw) -> dict[str, Any]:
             # requests take time on the wire, so the cyclic tester-present worker (every 0.5 s) fires during the scan - also in
             # sessions that do not offer TesterPresent and answer it with a negative response
             "latency": draw(st.sampled_from([None, None, 0.0201, 0.0501])),
+            # every transition is refused once with busyRepeatRequest (the scan runs with one retry): nothing is lost
+            "busy_once": draw(st.integers(0, 3)) == 0,
             "tp_unsupported": draw(st.lists(st.sampled_from(nodes), unique=True, max_size=3)) if draw(st.booleans()) else []}
 
 
@@ -226,7 +233,7 @@ def run_case(case: dict[str, Any]) -> dict[str, Any]:
         edges = {int(k): set(v) for k, v in case["graph"].items()}
         silent = {(a, b) for a, b in case["silent"]}
         server = make_graph_server(case["graph"], case["silent"], case["nrc_mode"], log, (case.get("reset") or [0, "positive"])[1],
-                                   frozenset(case.get("tp_unsupported") or []))
+                                   frozenset(case.get("tp_unsupported") or []), bool(case.get("busy_once")))
     else:
         server = vecu.make_server(case["seed"], case["params"], [])
         server.randomize()
@@ -236,7 +243,7 @@ def run_case(case: dict[str, Any]) -> dict[str, Any]:
         edges = {s: {t for t in ts} for s, ts in edges.items()}
         silent = set()
     cfg = SessionsScannerConfig(target="tcp-lines://127.0.0.1:1", depth=case["depth"], skip=list(case.get("skip_text") or case["skip"]), thorough=case["thorough"],
-                                dumpcap=False, timeout=0.5, max_retries=0, properties=False, reset=(case.get("reset") or [None])[0])
+                                dumpcap=False, timeout=0.5, max_retries=1 if case.get("busy_once") else 0, properties=False, reset=(case.get("reset") or [None])[0])
     nodes = len(edges)
     budget = (2000 + (case["depth"] + 1) * (nodes ** (case["depth"] if case["thorough"] else 1) + nodes) * 140 * 4) * (4 + case["depth"] if case.get("reset") else 1)
     stored = None
